@@ -760,7 +760,7 @@ async fn stream_transport(r: &mut Rng) -> (String, String) {
         .map(|_| match r.below(8) {
             0 => (false, 0),
             1 => (false, r.range(1, small as u64 + 1) as usize),
-            2 => (false, r.range(small as u64, big.min(2000) as u64 + 20) as usize),
+            2 => (false, r.range(small.min(2000) as u64, big.min(2000) as u64 + 20) as usize),
             3 => (false, big + r.range(0, 40) as usize),
             4 => (false, 3 * big.min(2000) + r.range(0, 7) as usize),
             5 => (true, r.range(1, 4) as usize),
